@@ -335,6 +335,12 @@ def boundary_schedules(rng):
     r = make_message(rng, 1, 1, None, 'A')
     s = make_message(rng, 2, 2, 0, 'A')
     out.append(('no-seq-multipart', [q[1], r[0], s[0], q[0], s[1]]))
+    # singles with sequence id 0 / without one while a multi-part message with sequence id 0 is in flight on the same channel
+    t0 = make_message(rng, 0, 3, 0, 'B')
+    t1 = make_message(rng, 1, 1, 0, 'B')
+    t2 = make_message(rng, 2, 1, None, 'B')
+    t3 = make_message(rng, 3, 1, 0, 'B')
+    out.append(('seq0-single-inside-seq0-multipart', [t0[0], t1[0], t0[2], wrapper_line(rng), t2[0], t3[0], t0[1]]))
     # tag-blocked multi-part with a wrapper
     t = make_message(rng, 0, 2, 8, 'B', tagged=1.0)
     out.append(('tagged', [wrapper_line(rng), t[1], t[0]]))
@@ -787,7 +793,12 @@ def run_case(ctx, seq, label, term=b'', tbq=False, frontends=None, cache=None, t
     scoped = in_scope(seq) if scoped is None else scoped
     spec_per = None
     if scoped and ctx.model is not None:
-        spec_per = spec_deliveries(ctx.model, seq)
+        # the oracles' inputs must lie inside the theorems' quantifier: the extracted, proved-sound WF check says so
+        if ctx.model.ask('asm_wf ' + ' '.join(spec_items(seq))) != '1':
+            rep.internal('harness generated a sequence outside WF for the oracles: ' + repr(case)[:600])
+            scoped = False
+        else:
+            spec_per = spec_deliveries(ctx.model, seq)
     for name in frontends:
         raw_lines = lines_for(name, lines, term)
         res = run_frontend(name, raw_lines, tbq, tmpdir=tmpdir)
@@ -860,11 +871,22 @@ def run_generated(ctx, want, n_random, n_out, frontends=None, deadline=None):
             rep.count('deliveries', nd)
             rep.count('deliveries-with-wrapper', sum(1 for c in res[FRONTENDS[0]]['flat'] if c[1]['wrapper']) if nd else 0)
             rep.count('assembled-deliveries', sum(1 for c in res[FRONTENDS[0]]['flat'] if c[1]['cnt'] > 1) if nd else 0)
+            rep.count('sequences')
+            if nd and any(c[1]['cnt'] > 1 and c[1]['wrapper'] for c in res[FRONTENDS[0]]['flat']):
+                rep.count('sequences-with-wrapped-assembled-delivery')
+            if len({(d['seq'], d['chan']) for d in seq if d['kind'] == 'frag' and d['cnt'] > 1}) > 1:
+                rep.count('sequences-with-several-slots')
             if n % 37 == 0:
                 rep.sample({'label': label, 'tbq': tbq, 'lines': [bytes.fromhex(d['hex']).decode('latin-1') for d in seq][:12],
                             'delivered_raw': [bytes.fromhex(c[1]['raw']).decode('latin-1') for c in res[FRONTENDS[0]]['flat']][:6]})
             if len(cache) > 4000:
                 cache.clear()
+        # generator self-check: the interesting branches must be exercised, not passed silently
+        n_seq = rep.dist.get('sequences', 0)
+        if n_seq >= 100 and FRONTENDS[0] in (frontends or FRONTENDS):
+            for key in ('sequences-with-wrapped-assembled-delivery', 'sequences-with-several-slots'):
+                if rep.dist.get(key, 0) < 0.05 * n_seq:
+                    rep.internal(f'generator self-check: {key} in only {rep.dist.get(key, 0)} of {n_seq} sequences')
     finally:
         shutil.rmtree(tmpdir, ignore_errors=True)
 
